@@ -316,6 +316,9 @@ fn run_persist(seed: u64, budget: usize) -> ! {
     }
     out(None, checked)
 }
+#[cfg(not(feature = "frontend"))]
+fn run_mirror(_seed: u64, _budget: usize) -> ! { out(None, 0) }
+#[cfg(feature = "frontend")]
 fn run_mirror(seed: u64, budget: usize) -> ! {
     let mut rng = Rng(seed.wrapping_mul(0xC2B2AE3D27D4EB4F) | 1);
     let mut checked = 0;
